@@ -170,8 +170,10 @@ Definition valid_allowed_bridge_chain (name : bytes) : bool := nonempty name.
 Definition valid_date_criteria (d : date_criteria) : bool :=
   match d with
   | DCNone => true
-  | DCMinStart t => negb (secs t <? -2208992400)             (* minStartDate.Seconds < -2208992400 *)
-  | DCWindow ds _ => negb (ds <? 24 * 3600)                  (* startDateWindow.Seconds < 24*3600 *)
+  | DCMinStart t => negb (secs t <? -2208992400) &&          (* minStartDate.Seconds < -2208992400 *)
+                    negb ((253402300799 <? secs t) || (nanos t <? 0) || (1000000000 <=? nanos t))
+  | DCWindow ds dn => negb (ds <? 24 * 3600) &&              (* startDateWindow.Seconds < 24*3600 *)
+                      negb ((315576000000 <? ds) || (dn <? 0) || (1000000000 <=? dn))
   | DCYears _ => true
   end.
 
